@@ -372,10 +372,31 @@ def rule_cwd(A: Analysis, rep):
         names = [norm(t) for t in st.targets] if isinstance(st, ast.Assign) and st.value is c else []
         uses_ = []
         if names:
-            for fn in [f] + list(f.nested.values()):
-                for n in walk_local(fn.node):
-                    if isinstance(n, ast.Name) and n.id == names[0] and isinstance(n.ctx, ast.Load):
-                        uses_.append(n)
+            # uses of the variable, followed into project helpers that receive it as an argument
+            work, seen_w = [(f, names[0])], set()
+            while work:
+                wf_, nm = work.pop()
+                if (wf_.fq, nm) in seen_w:
+                    continue
+                seen_w.add((wf_.fq, nm))
+                for fn in [wf_] + list(wf_.nested.values()):
+                    for n in walk_local(fn.node):
+                        if isinstance(n, ast.Name) and n.id == nm and isinstance(n.ctx, ast.Load):
+                            pc = getattr(n, "_parent", None)
+                            if isinstance(pc, ast.keyword):
+                                pc = getattr(pc, "_parent", None)
+                            passed = False
+                            if isinstance(pc, ast.Call) and (n in pc.args or any(k.value is n for k in pc.keywords)):
+                                for cal in A.res.callees(pc):
+                                    cf = A.prog.functions.get(cal)
+                                    if cf is None:
+                                        continue
+                                    for pn, av in A.bind_args(pc, cf).items():
+                                        if av is n:
+                                            work.append((cf, pn))
+                                            passed = True
+                            if not passed:
+                                uses_.append(n)
         else:
             uses_ = [c]
         for u in uses_:
